@@ -332,3 +332,11 @@ Theorem C12_failed_header_keeps_getters :
   forall f, In f getter_fields -> sc (xs (step faithful c x)) f = sc (xs x) f.
 Proof. exact failed_header_keeps_getters. Qed.
 Print Assumptions C12_failed_header_keeps_getters.
+
+(* no exported function leaves through a `return` that bypasses its bailout block after it started to drive a libjpeg
+   object, except by a tail call of an API function driving the same objects, the tables-only return of
+   tj3DecompressHeader, or after a parameter setter rejected a value from the library's own table (list of such returns
+   regenerated from turbojpeg.c / turbojpeg-mp.c) *)
+Theorem C12_no_return_bypasses_bailout : forallb (early_returns_ok api_functions) api_functions = true.
+Proof. exact early_returns_all_ok. Qed.
+Print Assumptions C12_no_return_bypasses_bailout.
